@@ -1,7 +1,7 @@
 (* C06  Laplacian is the graph Laplacian; applying a script is exact D - L*s. *)
 From Coq Require Import ZArith List Bool Permutation.
 Import ListNotations.
-From CF Require Import ZSum ListAux Defs LinEquiv Core Machines GraphLink MovesLink PyDict ImpRep TranslatedImpCFiringScript ImpLinkScript.
+From CF Require Import ZSum ListAux Defs LinEquiv Core Machines GraphLink MovesLink PyDict ImpRep TranslatedImpCFiringScript ImpLinkScript TranslatedImpCFLaplacian ImpLinkLaplacian.
 Open Scope Z_scope.
 
 Theorem C06_entries : forall g v w, lap_entry g v w = if Nat.eqb v w then valg g v else - mult g v w.
@@ -77,4 +77,21 @@ Print Assumptions C06_source_constructor.
 Example C06_source_constructor_nonvacuous :
   CFiringScript___init__ [0;1;2]%nat [] (Some [(2%nat, 5); (0%nat, -1)]) = PyOk [(2%nat, 5); (0%nat, -1)] /\
   CFiringScript___init__ [0;1;2]%nat [] (Some [(2%nat, 5); (3%nat, -1)]) = PyExn [(2%nat, 5)] /\ CFiringScript___init__ [0;1;2]%nat [] None = PyOk [].
+Proof. vm_compute. repeat split. Qed.
+
+(* the Laplacian itself, as built by CFLaplacian._construct_matrix translated from /repo's CURRENT source: for dictionaries representing g (and its valences) the result has,
+   for every vertex v, a row whose entry at w - absent entries being 0, the rows are defaultdict(int) - is lap_entry g v w of C06_entries, for every order in which the
+   vertex set is iterated; get_matrix_entry reads these entries back and refuses names that are not vertices *)
+Theorem C06_source_laplacian_matrix : forall g gg vs vtv V so, wfb g = true -> rep_graph gg g -> rep_vset (nv g) vs -> rep_div (nv g) vtv V ->
+  (forall v, (v < nv g)%nat -> nthZ V v = valg g v) -> (forall l, Permutation.Permutation (so l) l) ->
+  exists LL, CFLaplacian__construct_matrix vs vtv gg so = PyOk LL /\ rep_lap LL g /\
+    forall v w, CFLaplacian_get_matrix_entry vs LL v w = if Nat.ltb v (nv g) && Nat.ltb w (nv g) then PyOk (lap_entry g v w) else PyExn tt.
+Proof. intros g gg vs vtv V so Hwf Hg Hvs HV Hval Hso. destruct (construct_matrix_refines g Hwf gg Hg vs Hvs vtv V HV Hval so Hso) as (LL & E & R).
+  exists LL. split; [exact E|]. split; [exact R|]. intros v w. apply (get_matrix_entry_refines g vs Hvs LL v w R). Qed.
+Print Assumptions C06_source_laplacian_matrix.
+Example C06_source_laplacian_nonvacuous : let g := [[0;2;1];[2;0;1];[1;1;0]] in
+  match CFLaplacian__construct_matrix [0;1;2]%nat (dict_of_div [3;3;2]) (dict_of_graph g) (fun l => rev l) with
+  | PyOk LL => CFLaplacian_get_matrix_entry [0;1;2]%nat LL 0%nat 1%nat = PyOk (-2) /\ CFLaplacian_get_matrix_entry [0;1;2]%nat LL 2%nat 2%nat = PyOk 2 /\
+               CFLaplacian_get_matrix_entry [0;1;2]%nat LL 0%nat 3%nat = PyExn tt
+  | PyExn _ => False end.
 Proof. vm_compute. repeat split. Qed.
